@@ -95,10 +95,12 @@ MeekPost(T, a) ==
   IF T.rule = "meek-prf"
   THEN a.tag \in {"begin", "tie", "end"} \/ a.mc = "elect" \/ a.mc \in {"defeat_omega", "defeat_stable"}
   ELSE a.tag \in {"iterate", "end"}
+(* meek/warren: `begin' and the first `round' show the first-preference tallies, before any distribution *)
+PreFirstDist(T, k) == k <= 2 /\ \A i \in 1 .. k : T.acts[i].tag \in {"begin", "round"}
 C02_meek(T)   == IF T.fam # "meek" THEN {} ELSE
                  {k \in 1 .. NA(T) : LET a == T.acts[k] IN
                     /\ TotalAt(T, a) # T.n * T.S
-                    /\ IF T.rule = "meek-prf" THEN MeekPost(T, a) ELSE a.tag # "begin" \/ Len(T.eq) = 0}
+                    /\ IF T.rule = "meek-prf" THEN MeekPost(T, a) ELSE ~PreFirstDist(T, k) \/ Len(T.eq) = 0}
 (* the shortfalls that remain (meek-prf after an exclusion, meek `begin' with equal ranks) *)
 C02_meekshort(T) == IF T.fam # "meek" THEN {} ELSE
                  {k \in 1 .. NA(T) : TotalAt(T, T.acts[k]) < T.n * T.S} \ C02_meek(T)
@@ -114,7 +116,7 @@ ZeroedBefore(T, k) ==   \* sum of the tallies of the candidates excluded since t
 F18Shortfall(T) == LET f == [j \in DOMAIN T.eq |-> LET kk == Len(T.eq[j].r[1]) IN T.eq[j].m * (T.S - kk * (T.S \div kk))] IN Sum(f)
 C02_meekshort_f10(T) == {k \in C02_meekshort(T) : T.rule = "meek-prf" /\ ~MeekPost(T, T.acts[k])
                            /\ ZeroedBefore(T, k) > 0 /\ T.n * T.S - TotalAt(T, T.acts[k]) = ZeroedBefore(T, k)}
-C02_meekshort_f18(T) == {k \in C02_meekshort(T) : T.rule \in {"meek", "warren"} /\ T.acts[k].tag = "begin" /\ Len(T.eq) > 0
+C02_meekshort_f18(T) == {k \in C02_meekshort(T) : T.rule \in {"meek", "warren"} /\ PreFirstDist(T, k) /\ Len(T.eq) > 0
                            /\ T.kind # "rational" /\ T.n * T.S - TotalAt(T, T.acts[k]) = F18Shortfall(T)}
 C02_meekshort_other(T) == C02_meekshort(T) \ (C02_meekshort_f10(T) \cup C02_meekshort_f18(T))
 (* QPQ: the fractional numbers of candidates elected by all ballots sum to the number elected *)
@@ -187,7 +189,7 @@ Solid(T, SS) == LET sz == Cardinality(SS)
                 IN Sum(f)
 Allow(T) == IF T.kind = "rational" THEN 0 ELSE 2 * T.n * T.nc
 (* q0 = the rule's own initial quota; QPQ: n/(s+1) exactly, compared by cross-multiplication *)
-C05_applies(T) == T.outcome = "ok" /\ NA(T) > 0 /\ Len(T.eq) = 0 /\ ~(T.rule = "mpls" /\ \E c \in Cand(T) : T.und[c])
+C05_applies(T) == T.outcome = "ok" /\ NA(T) > 0 /\ T.acts[NA(T)].tag = "end" /\ Len(T.eq) = 0 /\ ~(T.rule = "mpls" /\ \E c \in Cand(T) : T.und[c])
 C05_bad(T) == IF ~C05_applies(T) THEN {} ELSE
   LET el == ElectedAt(T.acts[NA(T)])
       q0 == T.acts[1].quota
@@ -235,6 +237,7 @@ C06_surplus(T) == IF ~HasBal(T) THEN {} ELSE
              IF Top(T, p, j) = c
              THEN LET x == MulDivFloor(p.bal[j].w, sur, p.vote[c]) IN
                   IF T.kind = "rational" THEN a.bal[j].w # x \/ MulDivQR(p.bal[j].w, sur, p.vote[c])[2] # 0
+                  ELSE IF T.rule = "scotland" THEN a.bal[j].w # x          \* SSI 2007/42 r.48(3): one truncation of A/B
                   ELSE a.bal[j].w > x \/ a.bal[j].w < x - 1
              ELSE a.bal[j] # p.bal[j]}
 (* exclusion transfer: weights unchanged, positions move only for the excluded, tallies zero *)
@@ -350,19 +353,30 @@ C07_ties(T) ==
         \/ (Cardinality(tied) = 1 /\ prevtie)}
 (* scotland: prior-stage rule (SSI 2007/42 r.49(2)(b), r.51(2)) *)
 RoundSnapshots(T, k) == {i \in 1 .. k : T.acts[i].tag = "round"}
+Extreme(v, tied, kind) == IF kind = "defeat" THEN {x \in tied : \A y \in tied : v[x] <= v[y]}
+                          ELSE {x \in tied : \A y \in tied : v[x] >= v[y]}
+(* reading (a), the code's: the most recent stage with a UNIQUE extreme among all tied candidates; none: by lot *)
+RECURSIVE ScotCode(_, _, _, _)
+ScotCode(T, stages, tied, kind) ==
+  IF stages = {} THEN TieFirst(T, tied)
+  ELSE LET i == CHOOSE i \in stages : \A j \in stages : j <= i
+           ext == Extreme(T.acts[i].vote, tied, kind)
+       IN IF Cardinality(ext) = 1 THEN CHOOSE x \in ext : TRUE ELSE ScotCode(T, stages \ {i}, tied, kind)
+(* reading (b), the text's: the extreme at the most recent stage where the tallies differed; candidates still level *)
+(* there are separated by earlier stages among themselves, finally by lot                                          *)
+RECURSIVE ScotText(_, _, _, _)
+ScotText(T, stages, tied, kind) ==
+  LET diff == {i \in stages : \E x, y \in tied : T.acts[i].vote[x] # T.acts[i].vote[y]} IN
+  IF Cardinality(tied) = 1 THEN CHOOSE x \in tied : TRUE
+  ELSE IF diff = {} THEN TieFirst(T, tied)
+  ELSE LET i == CHOOSE i \in diff : \A j \in diff : j <= i
+       IN ScotText(T, {j \in stages : j < i}, Extreme(T.acts[i].vote, tied, kind), kind)
 C07_scot_prior(T) == IF T.rule # "scotland" THEN {} ELSE
   {k \in 1 .. NA(T) : LET a == T.acts[k] IN
      /\ a.tag = "tie" /\ a.subj # 0 /\ Len(a.tied) >= 2
      /\ LET tied == RangeSet(a.tied)
-            stages == {i \in RoundSnapshots(T, k) : \E x, y \in tied : T.acts[i].vote[x] # T.acts[i].vote[y]}
-        IN IF stages = {} THEN a.mc # "tie_lot" \/ a.subj # TieFirst(T, tied)
-           ELSE LET i == CHOOSE i \in stages : \A j \in stages : j <= i
-                    v == T.acts[i].vote
-                    ext == IF a.tiekind = "defeat"
-                           THEN {x \in tied : \A y \in tied : v[x] <= v[y]}
-                           ELSE {x \in tied : \A y \in tied : v[x] >= v[y]}
-                IN IF Cardinality(ext) = 1 THEN a.mc # "tie_prior" \/ a.subj \notin ext
-                   ELSE a.subj \notin tied}
+            st == RoundSnapshots(T, k)
+        IN a.subj \notin {ScotCode(T, st, tied, a.tiekind), ScotText(T, st, tied, a.tiekind)}}
 
 ----------------------------------------------------------------------------
 (* C08 -- Meek/Warren iterations *)
@@ -423,7 +437,7 @@ C09_round(T) == {k \in 2 .. NA(T) : T.acts[k].round < T.acts[k - 1].round}
 C18_first(T) == IF NA(T) = 0 THEN {0} ELSE
   IF T.rule = "mpls" THEN (IF NA(T) >= 2 /\ T.acts[1].tag = "round" /\ T.acts[2].tag = "count" THEN {} ELSE {1})
   ELSE (IF T.acts[1].tag = "begin" THEN {} ELSE {1})
-C18_last(T) == IF NA(T) > 0 /\ T.acts[NA(T)].tag = "end" /\ \A k \in 1 .. NA(T) - 1 : T.acts[k].tag # "end" THEN {} ELSE {NA(T)}
+C18_last(T) == IF T.outcome # "ok" THEN {} ELSE IF NA(T) > 0 /\ T.acts[NA(T)].tag = "end" /\ \A k \in 1 .. NA(T) - 1 : T.acts[k].tag # "end" THEN {} ELSE {NA(T)}
 (* baseline for the comparison: after a QPQ restart every elected candidate is hopeful again *)
 PrevSt(T, k) == IF QpqRestartStep(T, k) THEN [c \in Cand(T) |-> IF T.acts[k - 1].st[c] = "E" THEN "H" ELSE T.acts[k - 1].st[c]]
                 ELSE T.acts[k - 1].st
@@ -471,7 +485,8 @@ FailC09(T) == Tag("C09", "moves", C09_moves(T)) \cup Tag("C09", "over", C09_over
 FailC18(T) == Tag("C18", "first", C18_first(T)) \cup Tag("C18", "last", C18_last(T)) \cup
               Tag("C18", "listed", C18_listed(T)) \cup Tag("C18", "first_nochange", C18_first_nochange(T))
 
-Ok(T) == T.outcome = "ok" /\ NA(T) > 0
+(* a count whose post-count assertion failed still has its whole recorded history judged *)
+Ok(T) == T.outcome \in {"ok", "exc"} /\ NA(T) > 0
 FailOf(p, T) ==
   CASE p = "C01" -> FailC01(T)
     [] p = "C02" -> IF Ok(T) THEN FailC02(T) ELSE {}
